@@ -31,7 +31,7 @@ static std::vector<TPL> const &templates()
        {"bypassExtendedLagrangian", "on", 2}}, "", "}\n"},
     {"linear {\n colvars d\n", {{"centers", "1.0", 1}, {"forceConstant", "1.0", 0}, {"targetForceConstant", "2.0", 0}, {"targetNumSteps", "3", 0}}, "", "}\n"},
     {"histogram {\n colvars d z\n", {{"outputFreq", "2", 0}, {"outputFile", "h.dat", 3}, {"outputFileDX", "h.dx", 3}, {"stepZeroData", "on", 2}},
-     " histogramGrid {\n widths 0.5 1.0\n lowerBoundaries 0 -5\n upperBoundaries 10 15\n }\n", "}\n"},
+     " grid {\n widths 0.5 1.0\n lowerBoundaries 0 -5\n upperBoundaries 10 15\n }\n", "}\n"},
     {"abf {\n colvars d\n", {{"fullSamples", "2", 0}, {"minSamples", "1", 0}, {"maxForce", "5.0", 1}, {"hideJacobian", "on", 2}, {"applyBias", "on", 2},
        {"updateBias", "on", 2}, {"historyFreq", "2", 0}, {"outputFreq", "2", 0}, {"integrate", "on", 2}, {"integrateMaxIterations", "10", 0},
        {"integrateTol", "1e-4", 0}, {"shared", "off", 2}, {"CZARestimator", "on", 2}, {"UIestimator", "off", 2}, {"writeCZARwindowFile", "on", 2},
